@@ -38,7 +38,15 @@ static reflr::LRResult pattern_lr(const std::vector<ref::Tok> &pattern) {
 
 struct Run {  // the real pipeline on one case
   Theo::ScanResult sr; Theo::MacroExtractionResult mer; Theo::MacroApplicationResult mar;
-  Run(const Case &c, int budget) { sr = Theo::scan(c.files, c.main); mer = Theo::extract_macros(sr.toks); mar = Theo::apply_macros(mer.tokens, mer.macros, budget); }
+  std::string reuse;  // non-empty: applying the same extracted definitions to the same tokens a second time gave something else
+  Run(const Case &c, int budget, bool twice = false) {
+    sr = Theo::scan(c.files, c.main); mer = Theo::extract_macros(sr.toks); mar = Theo::apply_macros(mer.tokens, mer.macros, budget);
+    if (!twice) return;
+    // apply_macros only reads its arguments: a front end may apply one extracted macro set to several streams
+    Theo::MacroApplicationResult again = Theo::apply_macros(mer.tokens, mer.macros, budget);
+    if (again.transformed_sequence.size() != mar.transformed_sequence.size() || again.errors.size() != mar.errors.size()) reuse = "applying the same extracted definitions to the same tokens a second time gives " + std::to_string(again.transformed_sequence.size()) + " tokens and " + std::to_string(again.errors.size()) + " errors, the first time " + std::to_string(mar.transformed_sequence.size()) + " tokens and " + std::to_string(mar.errors.size()) + " errors";
+    else for (size_t i = 0; i < again.transformed_sequence.size(); i++) { const Theo::Token &x = again.transformed_sequence[i], &y = mar.transformed_sequence[i]; if (x.t != y.t || x.file != y.file || x.line != y.line || (x.text != y.text && x.text.find('#') == std::string::npos)) { reuse = "applying the same extracted definitions to the same tokens a second time gives another token " + std::to_string(i) + " ('" + x.text + "' instead of '" + y.text + "')"; break; } }
+  }
   bool has(Theo::ParseError::Type t) const { for (auto &e : mar.errors) if (e.t == t) return true; return false; }
 };
 static std::vector<ref::Tok> toks_of(const std::vector<Theo::Token> &v) { std::vector<ref::Tok> o; for (auto &t : v) o.push_back(real::totok(t)); return o; }
@@ -73,10 +81,12 @@ static void oracle_C09(const Case &c, vf::Stats &st) {
   ref::ScanOut so = ref::scan(c.files, c.main); if (!so.errs.empty()) { st.add("skipped_scan_errors"); return; }
   ref::Extracted ex = ref::extract(so.toks); if (!ex.wellformed) { st.add("skipped_not_wellformed"); return; }
   std::vector<bool> usable(ex.defs.size(), true);
-  Run r(c, c.budget);
+  Run r(c, c.budget, true);
   if (r.has(Theo::ParseError::MACRO_COMPILE_NON_LR)) { st.add("skipped_pattern_rejected(C12)"); return; }
   RefOut ro = ref_expand_all(ex.rest, ex.defs, usable, c.budget);
   if (ro.ambiguous || ro.capped) { st.add("skipped_ambiguous_reference"); return; }
+  if (!r.reuse.empty() && !ro.tie) { st.violation(key, r.reuse, cj); return; }
+  st.add("applied_twice_same_result");
   auto got = ref::canon_stream(toks_of(r.mar.transformed_sequence)); bool ok = false;
   for (auto &f : ro.finals) if (ref::canon_stream(f) == got) ok = true;
   bool rewrote = !(ro.finals.size() == 1 && ref::canon_stream(ro.finals[0]) == ref::canon_stream(ex.rest));
